@@ -23,7 +23,24 @@ def load_contracts(modnames):
             if k in models and models[k] != c:
                 raise RuntimeError('two different class models named {} (second one in {})'.format(k, m))
             models[k] = c
+    # The builder interface as the family proofs see it (assumed contracts on an abstract formula) carries the precondition of the
+    # PROVED builder contracts (formula_cnf.py / formula_opb.py) for unchecked calls: with check=False the literals must already be
+    # non-zero variables of the formula.  Stated once here, for every assumed builder contract; the family proofs discharge it at
+    # each call with check=False; tools/refine_check.py checks that the assumed contracts then follow from the proved ones.
+    for (rel, qual), c in contracts.items():
+        if c.get('assumed') and rel == 'cnfgen/formula/cnf.py' and '.' in qual and qual.split('.', 1)[1] in BUILDER_INTERFACE and 'check' in c.get('params', {}):
+            arg = next((x for x in ('lits', 'clause', 'clauses') if x in c['params']), None)
+            if arg is None:
+                continue
+            pre = ('implies(not check, cmaxabs({0}) <= self._numvar and not chaszero({0}))' if arg == 'clauses' else
+                   'implies(not check, maxabs({0}) <= self._numvar and not haszero({0}))').format(arg)
+            if pre not in c.get('requires', []):
+                c['requires'] = list(c.get('requires', [])) + [pre]
     return contracts, models
+
+
+BUILDER_INTERFACE = ('add_clause', 'add_clauses_from', 'cardinality_eq', 'cardinality_leq', 'cardinality_geq', 'cardinality_neq', 'add_parity',
+                     'add_loose_majority', 'add_loose_minority', 'add_strict_majority', 'add_strict_minority', 'add_linear')
 
 
 def variants_of(c):
